@@ -676,16 +676,18 @@ void body(V::Ctx &ctx)
     }
 
     // plan: (number of slots, which base layouts, single or double deviations)
-    struct Plan { int n; int minEntries; bool pairs; };
+    // quick: n=3 all layouts, n=4 the layouts with two entries whose second entry has two slots
+    // thorough: n=4 and n=5 all layouts; pairs of deviations on the n=3 layouts
+    struct Plan { int n; bool onlyTwoEntriesSecondOfTwoSlots; bool pairs; };
     std::vector<Plan> plans;
-    if (ctx.quick()) plans = {{3, 1, false}, {4, 2, false}};
-    else plans = {{4, 1, false}, {5, 1, false}, {3, 1, true}};
+    if (ctx.quick()) plans = {{3, false, false}, {4, true, false}};
+    else plans = {{4, false, false}, {5, false, false}, {3, false, true}};
 
     for (const Plan &pl : plans) {
         std::vector<std::vector<EntryPlan>> ls;
         layouts(pl.n, 3, true, ls);
         for (const auto &es : ls) {
-            if ((int)es.size() < pl.minEntries) continue;
+            if (pl.onlyTwoEntriesSecondOfTwoSlots && !(es.size() == 2 && es[1].at.size() == 2)) continue;
             if (pastDeadline()) break;
             const Image base = baseImage(pl.n, es);
             const std::vector<Dev> devs = deviations(base, true);
